@@ -47,6 +47,14 @@ CHECKS.update({
  'C18': ('model_checking', 'TLC model checking of Schedule.tla (window semantics: symmetric, transitive, convex, separated) + the real TimeRange evaluated on configurations x calendar grid x pairs in five time zones + TLC trace validation of every answer (ScheduleTrace.tla)',
          'All start/end times from a 5-value grid, 7 weekday subsets, all 49 start/end day pairs (a seed-chosen third in quick); instants every boundary +-30 min over four weeks containing DST shifts; pairs within 8 days.', '6 C18',
          CODEC_NOTE + ' Instants within one second of an edge and civil times that do not exist / are ambiguous in the zone are not judged.'),
+ 'C13': ('model_checking', 'TLC model checking of Groups.tla (reading back what Flatten writes is the identity) + group instances written through the public API / hand-assembled wire forms, parsed with and without the defining dictionary, read back through the template + TLC trace validation (GroupsTrace.tla)',
+         'Synthetic templates up to depth 3 with entry counts 0/1/2, optional members on/off, nested counts 0/1/2, the group first/middle/last in the body and followed by another group; every group of every message of the shipped specifications (a seed-chosen subset of files in quick).', '6 C13', CODEC_NOTE),
+ 'C15': ('model_checking', 'generated conforming messages and single-defect mutations for the message types of the shipped specifications, validated by the real Validator under several settings; TLC re-derives each case\'s structural conformance from the specification documents (Dictionary.tla operators) and judges the answer (Validator.tla / ValidatorTrace.tla)',
+         'Per message type: required-only and optional-rich conforming instances; defects: unknown MsgType, required field missing (body, header), tag unknown to the dictionary (below and above 5000), tag not defined for the message, ill-formed value, value outside the enumeration, empty value, duplicate, header field inside the body, group count mismatch, group member order; settings: default and each relaxation.', '6 C15',
+         CODEC_NOTE + ' Value well-formedness of generated conforming instances is the generator\'s; a member-order defect accepts any rejection; defects under a relaxing setting whose outcome the statement leaves open are not judged.'),
+ 'C19': ('model_checking', 'TLC model checking of Dictionary.tla (laws of the reachable-fields / required-tags / group-member operators) + the real datadictionary package loading shipped and generated specifications + TLC trace validation against documents exported by an independent XML walk (DictTrace.tla)',
+         'The shipped specification files in full (all nine in thorough) and generated specifications with nested components and groups, optional/required members, dangling references, the required-through-optional-component shape.', '6 C19',
+         CODEC_NOTE + ' The independent XML walk (lib/xmlwalk.py) is the ground truth for what a specification file says.'),
 })
 NA = {}
 for l in open(V + '/properties.jsonl'):
